@@ -101,6 +101,15 @@ fn btree_for_each_mut<K, V, F: FnMut(&K, &mut V)>(m: &mut BTreeMap<K, V>, mut f:
     ensures final(m)@.dom() == old(m)@.dom(),
         forall|k: K| old(m)@.contains_key(k) ==> exists|v: &mut V| *v == old(m)@[k] && *final(v) == #[trigger] final(m)@[k] && call_ensures(f, (&k, v), ()),
 { for (k, v) in m.iter_mut() { f(k, v) } }
+// R30b: the same loop with a `break` in its body: the closure returns true where the loop breaks; entries after the
+// break are not visited (they stay as they were)
+#[verifier::external_body]
+fn btree_for_each_mut_until<K, V, F: FnMut(&K, &mut V) -> bool>(m: &mut BTreeMap<K, V>, mut f: F)
+    requires forall|k: K, v: &mut V| old(m)@.contains_key(k) && *v == old(m)@[k] ==> call_requires(f, (&k, v)),
+    ensures final(m)@.dom() == old(m)@.dom(),
+        forall|k: K| old(m)@.contains_key(k) ==> (#[trigger] final(m)@[k] == old(m)@[k]
+            || exists|v: &mut V, b: bool| *v == old(m)@[k] && *final(v) == final(m)@[k] && call_ensures(f, (&k, v), b)),
+{ for (k, v) in m.iter_mut() { if f(k, v) { break; } } }
 // R29: `vec == *slice` (PartialEq<[u8]> for Vec<u8>): element-wise comparison
 #[verifier::external_body]
 fn vec_eq_slice(a: &Vec<u8>, b: &[u8]) -> (r: bool) ensures r == (a@ == b@) { *a == *b }
@@ -378,18 +387,22 @@ def build(repo):
                 }''')
     # ---- acknowledge -----------------------------------------------------------------------------------
     AK = (S, 'acknowledge')
+    s_, p_, bo_, bc_ = u._fn_span(AK)
+    has_break = re.search(r'(?<![A-Za-z0-9_])break\s*;', s_.code[bo_:bc_]) is not None
     u.replace_in(AK, 'R30:for-iter_mut', r'for \(resource_path, resource\) in self\.resources\.iter_mut\(\) \{',
-                 '''btree_for_each_mut(&mut self.resources, |resource_path: &String, resource: &mut Resource<Endpoint>|
+                 '''%s(&mut self.resources, |resource_path: &String, resource: &mut Resource<Endpoint>|%s
                 requires distinct_eps(resource.observers@), counts_ok(resource.observers@)
                 ensures final(resource).sequence == old(resource).sequence,
                     acked(old(resource).observers@, final(resource).observers@, *observer_endpoint, message_id),
                     distinct_eps(final(resource).observers@), counts_ok(final(resource).observers@)
             {
-            let ghost s0 = resource.observers@;''')
+            let ghost s0 = resource.observers@;''' % (('btree_for_each_mut_until', ' -> (stop: bool)') if has_break else ('btree_for_each_mut', '')))
     # the loop's closing brace becomes the end of the closure and of the call
     s_, p_, bo_, bc_ = u._fn_span(AK)
     close = u.text.rfind('}', bo_, bc_)          # last '}' inside the fn body = end of the former loop
-    u.text = u.text[:close] + '});' + u.text[close + 1:]
+    u.text = u.text[:close] + ('false });' if has_break else '});') + u.text[close + 1:]
+    if has_break:
+        u.replace_in(AK, 'R30b:break-as-return', r'(?<![A-Za-z0-9_])break\s*;', 'return true;', (1, 5))
     u.rule('R28:iter_mut-find', r'((?:\w+\s*\.\s*)*\w+)\s*\.iter_mut\(\)\s*\.find\(', lambda m: 'vec_find_mut(&mut %s, ' % re.sub(r'\s+', '', m.group(1)), 1)
     u.closure(AK, r'\|x\|', 'x: &&mut Observer<Endpoint>', 'b: bool', 'ensures b == ack_matches(*old(*x), *observer_endpoint, message_id)')
     u.contract(AK, '''        requires request.source is Some, ep_ok::<Endpoint>(), wf(*old(self))
